@@ -259,7 +259,7 @@ class OutputManager:
         # add monthly load summary
         monthly_load_values = []
         n_months = len(design.ghe.hybrid_load.monthly_cl) - 1
-        n_years = int(n_months / 12)
+        n_years = -(-n_months // 12)  # a horizon that is not a multiple of 12 months still needs its last, partial year
         months = n_years * [
             "January",
             "February",
@@ -522,7 +522,7 @@ class OutputManager:
 
         monthly_load_values = []
         n_months = len(design.ghe.hybrid_load.monthly_cl) - 1
-        n_years = int(n_months / 12)
+        n_years = -(-n_months // 12)  # a horizon that is not a multiple of 12 months still needs its last, partial year
         months = n_years * [
             "January",
             "February",
